@@ -47,6 +47,15 @@ module Coq__1 = struct
 end
 include Coq__1
 
+(** val sub : nat -> nat -> nat **)
+
+let rec sub n0 m =
+  match n0 with
+  | O -> n0
+  | S k -> (match m with
+            | O -> n0
+            | S l -> sub k l)
+
 type positive =
 | XI of positive
 | XO of positive
@@ -60,6 +69,18 @@ type z =
 | Z0
 | Zpos of positive
 | Zneg of positive
+
+module Nat =
+ struct
+  (** val leb : nat -> nat -> bool **)
+
+  let rec leb n0 m =
+    match n0 with
+    | O -> true
+    | S n' -> (match m with
+               | O -> false
+               | S m' -> leb n' m')
+ end
 
 module Pos =
  struct
@@ -230,10 +251,10 @@ module Coq_Pos =
 
   (** val iter_op : ('a1 -> 'a1 -> 'a1) -> positive -> 'a1 -> 'a1 **)
 
-  let rec iter_op op p a =
+  let rec iter_op op0 p a =
     match p with
-    | XI p0 -> op a (iter_op op p0 (op a a))
-    | XO p0 -> iter_op op p0 (op a a)
+    | XI p0 -> op0 a (iter_op op0 p0 (op0 a a))
+    | XO p0 -> iter_op op0 p0 (op0 a a)
     | XH -> a
 
   (** val to_nat : positive -> nat **)
@@ -574,6 +595,20 @@ module Z =
     let (_, r) = div_eucl a b in r
  end
 
+(** val removelast : 'a1 list -> 'a1 list **)
+
+let rec removelast = function
+| [] -> []
+| a :: l0 -> (match l0 with
+              | [] -> []
+              | _ :: _ -> a :: (removelast l0))
+
+(** val rev : 'a1 list -> 'a1 list **)
+
+let rec rev = function
+| [] -> []
+| x :: l' -> app (rev l') (x :: [])
+
 (** val concat : 'a1 list list -> 'a1 list **)
 
 let rec concat = function
@@ -586,13 +621,63 @@ let rec map f = function
 | [] -> []
 | a :: t -> (f a) :: (map f t)
 
+(** val existsb : ('a1 -> bool) -> 'a1 list -> bool **)
+
+let rec existsb f = function
+| [] -> false
+| a :: l0 -> (||) (f a) (existsb f l0)
+
 (** val forallb : ('a1 -> bool) -> 'a1 list -> bool **)
 
 let rec forallb f = function
 | [] -> true
 | a :: l0 -> (&&) (f a) (forallb f l0)
 
+(** val firstn : nat -> 'a1 list -> 'a1 list **)
+
+let rec firstn n0 l =
+  match n0 with
+  | O -> []
+  | S n1 -> (match l with
+             | [] -> []
+             | a :: l0 -> a :: (firstn n1 l0))
+
+(** val skipn : nat -> 'a1 list -> 'a1 list **)
+
+let rec skipn n0 l =
+  match n0 with
+  | O -> l
+  | S n1 -> (match l with
+             | [] -> []
+             | _ :: l0 -> skipn n1 l0)
+
 type byte = n
+
+(** val index_byte : n -> n list -> nat option **)
+
+let rec index_byte b = function
+| [] -> None
+| x :: l' ->
+  if N.eqb x b
+  then Some O
+  else (match index_byte b l' with
+        | Some i -> Some (S i)
+        | None -> None)
+
+(** val buffer_line_newline : n **)
+
+let buffer_line_newline =
+  Npos (XO (XI (XO XH)))
+
+(** val buffer_line_interrupt : n **)
+
+let buffer_line_interrupt =
+  Npos (XI XH)
+
+(** val buffer_line_cr : n **)
+
+let buffer_line_cr =
+  Npos (XI (XO (XI XH)))
 
 (** val escape_leader : n **)
 
@@ -624,6 +709,234 @@ let escape_all_chars =
 
 let escape_all_first_code =
   Npos (XI (XO (XO (XO (XO (XO XH))))))
+
+(** val nl : byte **)
+
+let nl =
+  buffer_line_newline
+
+(** val intr : byte **)
+
+let intr =
+  buffer_line_interrupt
+
+(** val cr : byte **)
+
+let cr =
+  buffer_line_cr
+
+type pending = byte list list
+
+type rres =
+| Done of byte list * pending
+| Blocked
+| Interrupted of pending
+
+(** val has_byte : byte -> byte list -> bool **)
+
+let has_byte b l =
+  existsb (N.eqb b) l
+
+(** val ends_cr : byte list -> bool **)
+
+let ends_cr l =
+  match rev l with
+  | [] -> false
+  | b :: _ -> N.eqb b cr
+
+type cres =
+| CLine of byte list * byte list
+| CIntr of byte list
+| CMore of byte list
+
+(** val in_chunk : nat -> bool -> byte list -> byte list -> cres **)
+
+let rec in_chunk fuel junk acc buf =
+  match fuel with
+  | O -> CMore acc
+  | S f ->
+    (match index_byte nl buf with
+     | Some i ->
+       let post = skipn (add i (S O)) buf in
+       let pre = firstn i buf in
+       if has_byte intr pre
+       then CIntr post
+       else let acc' = app acc pre in
+            if (&&) junk (ends_cr acc')
+            then (match post with
+                  | [] -> CMore (removelast acc')
+                  | _ :: _ -> in_chunk f junk (removelast acc') post)
+            else CLine (acc', post)
+     | None -> if has_byte intr buf then CIntr [] else CMore (app acc buf))
+
+(** val read_line : bool -> byte list -> pending -> rres **)
+
+let rec read_line junk acc = function
+| [] -> Blocked
+| c :: rest ->
+  (match in_chunk (S (length c)) junk acc c with
+   | CLine (l, post) -> Done (l, (post :: rest))
+   | CIntr post -> Interrupted (post :: rest)
+   | CMore acc' -> read_line junk acc' rest)
+
+(** val read_binary : nat -> byte list -> pending -> rres **)
+
+let rec read_binary left acc = function
+| [] -> Blocked
+| c :: rest ->
+  if Nat.leb left (length c)
+  then Done ((app acc (firstn left c)), ((skipn left c) :: rest))
+  else read_binary (sub left (length c)) (app acc c) rest
+
+(** val read_binary_op : z -> pending -> rres **)
+
+let read_binary_op size pend =
+  match Z.to_nat size with
+  | O -> Done ([], pend)
+  | S n0 -> read_binary (S n0) [] pend
+
+(** val pop_buffer : pending -> byte list option * pending **)
+
+let pop_buffer = function
+| [] -> (None, [])
+| l :: q ->
+  (match l with
+   | [] -> (match q with
+            | [] -> (None, [])
+            | c :: q0 -> ((Some c), ([] :: q0)))
+   | b :: c -> ((Some (b :: c)), ([] :: q)))
+
+(** val pop_all : nat -> pending -> byte list list **)
+
+let rec pop_all fuel pend =
+  match fuel with
+  | O -> []
+  | S f ->
+    let (o, p') = pop_buffer pend in
+    (match o with
+     | Some c -> c :: (pop_all f p')
+     | None -> [])
+
+(** val pop_all_fuel : pending -> nat **)
+
+let pop_all_fuel pend =
+  S (length pend)
+
+type op =
+| OpLine of bool
+| OpBinary of z
+
+type result =
+| RData of byte list
+| RBlocked
+| RInterrupted
+
+(** val step : op -> pending -> rres **)
+
+let step o pend =
+  match o with
+  | OpLine junk -> read_line junk [] pend
+  | OpBinary size -> read_binary_op size pend
+
+(** val run_st : op list -> pending -> result list * pending **)
+
+let rec run_st ops pend =
+  match ops with
+  | [] -> ([], pend)
+  | o :: r ->
+    (match step o pend with
+     | Done (d, p') -> let (rs, e) = run_st r p' in (((RData d) :: rs), e)
+     | Blocked -> ((RBlocked :: []), pend)
+     | Interrupted _ -> ((RInterrupted :: []), pend))
+
+(** val run : op list -> pending -> result list **)
+
+let run ops pend =
+  fst (run_st ops pend)
+
+(** val run_cont : op list -> pending -> result list * pending **)
+
+let rec run_cont ops pend =
+  match ops with
+  | [] -> ([], pend)
+  | o :: r ->
+    (match step o pend with
+     | Done (d, p') -> let (rs, e) = run_cont r p' in (((RData d) :: rs), e)
+     | Blocked -> ((RBlocked :: []), [])
+     | Interrupted p' ->
+       let (rs, e) = run_cont r p' in ((RInterrupted :: rs), e))
+
+(** val split_at : byte -> byte list -> byte list * byte list option **)
+
+let rec split_at b = function
+| [] -> ([], None)
+| x :: t ->
+  if N.eqb x b
+  then ([], (Some t))
+  else let (p, r) = split_at b t in ((x :: p), r)
+
+type fres =
+| FDone of byte list * byte list
+| FBlocked
+| FInterrupted
+
+(** val ref_line : byte list -> fres **)
+
+let ref_line s =
+  let (pre, o) = split_at nl s in
+  (match o with
+   | Some post ->
+     if has_byte intr pre then FInterrupted else FDone (pre, post)
+   | None -> if has_byte intr pre then FInterrupted else FBlocked)
+
+(** val ref_junk_line : nat -> byte list -> byte list -> fres **)
+
+let rec ref_junk_line fuel acc s =
+  match fuel with
+  | O -> FBlocked
+  | S f ->
+    let (pre, o) = split_at nl s in
+    (match o with
+     | Some post ->
+       if has_byte intr pre
+       then FInterrupted
+       else if ends_cr (app acc pre)
+            then ref_junk_line f (removelast (app acc pre)) post
+            else FDone ((app acc pre), post)
+     | None -> if has_byte intr pre then FInterrupted else FBlocked)
+
+(** val ref_binary : z -> byte list -> fres **)
+
+let ref_binary size s =
+  let n0 = Z.to_nat size in
+  if Nat.leb n0 (length s)
+  then FDone ((firstn n0 s), (skipn n0 s))
+  else FBlocked
+
+(** val ref_step : op -> byte list -> fres **)
+
+let ref_step o s =
+  match o with
+  | OpLine junk ->
+    if junk then ref_junk_line (S (length s)) [] s else ref_line s
+  | OpBinary size -> ref_binary size s
+
+(** val ref_run_st : op list -> byte list -> result list * byte list **)
+
+let rec ref_run_st ops s =
+  match ops with
+  | [] -> ([], s)
+  | o :: r ->
+    (match ref_step o s with
+     | FDone (d, s') ->
+       let (rs, e) = ref_run_st r s' in (((RData d) :: rs), e)
+     | FBlocked -> ((RBlocked :: []), s)
+     | FInterrupted -> ((RInterrupted :: []), s))
+
+(** val ref_run : op list -> byte list -> result list **)
+
+let ref_run ops s =
+  fst (ref_run_st ops s)
 
 (** val leader : byte **)
 
@@ -709,13 +1022,13 @@ let unescape_data t data dstlen =
                   | O -> length data
                   | S _ -> dstlen)
 
-type rres =
-| RData of byte list
+type rres0 =
+| RData0 of byte list
 | REof
 | RErr of byte
 
 (** val er_read :
-    table -> byte list -> byte list list -> nat -> rres * (byte list * byte
+    table -> byte list -> byte list list -> nat -> rres0 * (byte list * byte
     list list) **)
 
 let rec er_read t buffer cs size =
@@ -728,7 +1041,7 @@ let rec er_read t buffer cs size =
        (match cs with
         | [] -> (REof, (rem, []))
         | c :: cs' -> er_read t (app rem c) cs' size)
-     | _ :: _ -> ((RData out), (rem, cs)))
+     | _ :: _ -> ((RData0 out), (rem, cs)))
   | UErr c -> ((RErr c), (buffer, cs))
 
 (** val next_size : nat list -> nat -> nat * nat list **)
@@ -754,7 +1067,7 @@ let rec er_run fuel t buffer cs sizes dflt =
     let (size, sizes') = next_size sizes dflt in
     let (r, p) = er_read t buffer cs size in
     (match r with
-     | RData out ->
+     | RData0 out ->
        let (b', cs') = p in
        let (outs, e) = er_run f t b' cs' sizes' dflt in ((out :: outs), e)
      | REof -> let (b', _) = p in ([], (EndEof b'))
